@@ -1,4 +1,268 @@
 package main
 
-func (c *c11ctx) ruleR3() {}
-func (c *c11ctx) ruleR4() {}
+import (
+	"fmt"
+	"go/token"
+	"go/types"
+	"sort"
+	"strings"
+
+	"golang.org/x/tools/go/ssa"
+)
+
+func (c *c11ctx) ruleR3() { c11GuardRules(c) }
+
+// ---- R4: no unconditional blocking on a mortal peer ---------------------------------------
+
+func (c *c11ctx) ruleR4() {
+	p, r := c.p, c.r
+	q := c.rv.Queue
+	ctl := c.rv.Ctl.Obj().Name()
+	// (a) the hand-off in the queueing function must be an arm of a select with an alternative
+	Instrs(q, func(in ssa.Instruction) {
+		if s, ok := in.(*ssa.Send); ok && chanFieldName(s.Chan) == c.rv.ReqField {
+			r.Bad("C11.R4", "hand-off in "+FuncName(q), p.InstrPos(in),
+				"unconditional send on "+c.rv.ReqField+": its only receiver is the core loop, which ends by itself on a source error or timeout; a request arriving after that blocks its caller forever (the active flag is refreshed only by handlers, not by the core loop's exit)")
+		}
+		if sel, ok := in.(*ssa.Select); ok {
+			for _, st := range sel.States {
+				if st.Dir == types.SendOnly && chanFieldName(st.Chan) == c.rv.ReqField {
+					alt := len(sel.States) > 1 || !sel.Blocking
+					r.Check(alt, "C11.R4", "hand-off in "+FuncName(q), p.InstrPos(in),
+						"the hand-off is one arm of a select that has another way out when the core loop is gone",
+						"select with the hand-off as its only arm blocks forever once the core loop has ended")
+				}
+			}
+		}
+	})
+	// (b) the active flag: the bool field of the controller tested by the queueing function
+	flag := ""
+	Instrs(q, func(in ssa.Instruction) {
+		if iff, ok := in.(*ssa.If); ok && flag == "" {
+			v := iff.Cond
+			if u, isU := v.(*ssa.UnOp); isU && u.Op == token.NOT {
+				v = u.X
+			}
+			if o, f, _, ok := FieldOf(v); ok && o == ctl {
+				flag = f
+			}
+		}
+	})
+	if flag == "" {
+		r.Bad("C11.R4", "active-flag guard in "+FuncName(q), p.Pos(q.Pos()), "the queueing function does not test an active flag before the hand-off: with no source running the request blocks forever")
+		return
+	}
+	// every store of true to the flag must be on the success branch of the call that starts the core loop
+	cons := c.coreConsumers()
+	var starter *ssa.Function
+	if len(cons) == 1 {
+		for _, gs := range p.GoStarts() {
+			for _, f := range gs.Callees {
+				if f == cons[0] {
+					starter = gs.In
+				}
+			}
+		}
+	}
+	for _, fn := range p.LibFuncs() {
+		for _, st := range StoresTo(fn, ctl, flag) {
+			cst, isC := st.Val.(*ssa.Const)
+			if !isC || cst.Value == nil || cst.Value.String() != "true" {
+				continue
+			}
+			r.Fn(FuncName(fn))
+			good := false
+			for _, ci := range controllingIfs(st.Block()) {
+				bo, ok := ci.If.Cond.(*ssa.BinOp)
+				if !ok {
+					continue
+				}
+				call, ok := bo.X.(*ssa.Call)
+				if !ok || call.Call.StaticCallee() != starter {
+					continue
+				}
+				if cn, isC := bo.Y.(*ssa.Const); !isC || cn.Value != nil {
+					continue
+				}
+				// err != nil : success is the false branch; err == nil : success is the true branch
+				if (bo.Op == token.NEQ && ci.Branch == 1) || (bo.Op == token.EQL && ci.Branch == 0) {
+					good = true
+				}
+			}
+			r.Check(good, "C11.R4", "store "+flag+"=true in "+FuncName(fn), p.InstrPos(st),
+				"the active flag becomes true only after the start function (which launches the core loop) returned success",
+				"the active flag is set before / regardless of a successful start: a request from another connection during a slow or failing start passes the guard and blocks forever on the request channel, with no core loop to receive it")
+		}
+	}
+	// (c) handler-side operations on other mortal-peer channels of data sources (mix requests)
+	for _, h := range c.rv.Handlers {
+		Instrs(h, func(in ssa.Instruction) {
+			cc := CallOf(in)
+			if cc == nil || !cc.IsInvoke() {
+				return
+			}
+			for _, impl := range p.callees(in) {
+				impl = Unwrap(impl)
+				if impl == nil || impl.Blocks == nil {
+					continue
+				}
+				blocking := ""
+				Instrs(impl, func(x ssa.Instruction) {
+					if s, ok := x.(*ssa.Send); ok && chanFieldName(s.Chan) != "" {
+						blocking = "send on " + chanFieldName(s.Chan) + " at " + p.InstrPos(x)
+					}
+					if u, ok := x.(*ssa.UnOp); ok && u.Op == token.ARROW && chanFieldName(u.X) != "" {
+						blocking = "receive from " + chanFieldName(u.X) + " at " + p.InstrPos(x)
+					}
+				})
+				if blocking == "" {
+					continue
+				}
+				// the handler must have tested the active flag before the call
+				guarded := false
+				for _, ci := range controllingIfs(in.Block()) {
+					v := ci.If.Cond
+					if u, isU := v.(*ssa.UnOp); isU && u.Op == token.NOT {
+						v = u.X
+					}
+					if o, f, _, ok := FieldOf(v); ok && o == ctl && f == flag {
+						guarded = true
+					}
+				}
+				// or an early return on !flag dominates
+				Instrs(h, func(x ssa.Instruction) {
+					iff, ok := x.(*ssa.If)
+					if !ok {
+						return
+					}
+					v := iff.Cond
+					neg := false
+					if u, isU := v.(*ssa.UnOp); isU && u.Op == token.NOT {
+						v, neg = u.X, true
+					}
+					if o, f, _, ok := FieldOf(v); ok && o == ctl && f == flag {
+						cont := iff.Block().Succs[0]
+						if neg {
+							cont = iff.Block().Succs[1]
+						}
+						if cont == in.Block() || cont.Dominates(in.Block()) {
+							guarded = true
+						}
+					}
+				})
+				r.Check(guarded, "C11.R4", FuncName(h)+" calls blocking "+FuncName(impl), p.InstrPos(in),
+					"the handler tests the active flag before a call that blocks on a per-block goroutine",
+					"handler calls "+FuncName(impl)+" ("+blocking+") without testing the active flag: with no running source nothing ever serves that channel and the request blocks forever")
+			}
+		})
+	}
+}
+
+// ---- lock re-entrancy (shared by C10 and C11) ------------------------------------------------
+
+// lockSummary: the mutex fields a function may lock, transitively over static callees.
+func lockSummary(p *Prog, fn *ssa.Function, memo map[*ssa.Function]map[string]bool, depth int) map[string]bool {
+	if m, ok := memo[fn]; ok {
+		return m
+	}
+	out := map[string]bool{}
+	memo[fn] = out
+	if fn == nil || fn.Blocks == nil || depth > 6 {
+		return out
+	}
+	pk := fnPkg(fn)
+	if pk == nil || !strings.HasPrefix(pk.Path(), modPath) {
+		return out
+	}
+	Instrs(fn, func(in ssa.Instruction) {
+		if _, isGo := in.(*ssa.Go); isGo {
+			return
+		}
+		if m := mutexFieldOf(in, "Lock"); m != "" {
+			out[m] = true
+		}
+		if cc := CallOf(in); cc != nil {
+			if sc := cc.StaticCallee(); sc != nil {
+				for k := range lockSummary(p, sc, memo, depth+1) {
+					out[k] = true
+				}
+			}
+		}
+	})
+	return out
+}
+
+// checkLockReentrancy reports calls made while a mutex is held to functions that lock the same
+// mutex field of the same receiver object (Go mutexes are not re-entrant: self-deadlock).
+func checkLockReentrancy(p *Prog, r *Report, rule string) {
+	memo := map[*ssa.Function]map[string]bool{}
+	for _, fn := range p.LibFuncs() {
+		locks := map[string]bool{}
+		Instrs(fn, func(in ssa.Instruction) {
+			if m := mutexFieldOf(in, "Lock"); m != "" {
+				if _, isDefer := in.(*ssa.Defer); !isDefer {
+					locks[m] = true
+				}
+			}
+		})
+		var names []string
+		for m := range locks {
+			names = append(names, m)
+		}
+		sort.Strings(names)
+		for _, m := range names {
+			isL := func(in ssa.Instruction) bool { return mutexFieldOf(in, "Lock") == m }
+			isU := func(in ssa.Instruction) bool { return mutexFieldOf(in, "Unlock") == m }
+			st := lockStates(fn, isL, isU)
+			bad := ""
+			// receiver object of the lock in this function
+			var lockRecv ssa.Value
+			Instrs(fn, func(in ssa.Instruction) {
+				if isL(in) {
+					if fa, ok := CallOf(in).Args[0].(*ssa.FieldAddr); ok {
+						lockRecv = fa.X
+					}
+				}
+			})
+			for in, s := range st {
+				if s&2 == 0 || isL(in) || isU(in) {
+					continue
+				}
+				if _, isDefer := in.(*ssa.Defer); isDefer {
+					continue
+				}
+				if _, isGo := in.(*ssa.Go); isGo {
+					continue
+				}
+				cc := CallOf(in)
+				if cc == nil {
+					continue
+				}
+				sc := cc.StaticCallee()
+				if sc == nil {
+					continue
+				}
+				if !lockSummary(p, sc, memo, 0)[m] {
+					continue
+				}
+				// same object?  the callee is a method on the same receiver value, or receives it
+				same := false
+				for _, a := range cc.Args {
+					if a == lockRecv {
+						same = true
+					}
+					if root, _ := fieldPath(a); root == lockRecv && lockRecv != nil {
+						same = true
+					}
+				}
+				if same {
+					bad = fmt.Sprintf("call to %s at %s while %s is held; the callee locks it again", FuncName(sc), p.InstrPos(in), m)
+				}
+			}
+			r.Fn(FuncName(fn))
+			r.Check(bad == "", rule, FuncName(fn)+" does not re-lock "+m, p.Pos(fn.Pos()),
+				"no call made under the mutex locks the same mutex again",
+				"self-deadlock: "+bad+" (sync.Mutex is not re-entrant; the goroutine — the core loop when this runs in a request — blocks forever)")
+		}
+	}
+}
